@@ -33,6 +33,7 @@ class Cov(object):
         self.clip = True
 
     def contains(self, bbox, srs):
+        self.asked = getattr(self, 'asked', []) + [tuple(bbox)]
         return B(self._c)
 
     def intersects(self, bbox, srs):
@@ -226,7 +227,13 @@ class TileAuth(Harness):
             if eff is None:
                 return len(info_calls) == 1
             inside = covs[eff]._c
-            return AND(IMPLIES(inside, len(info_calls) == 1), IMPLIES(NOT(inside), AND(len(info_calls) == 0, resp.response == '')))
+            # the gate is asked about the *ground* coordinate of the clicked pixel of that tile, not about pixel numbers
+            tb = layer.grid.grid.tile_bbox((0, 0, 0))
+            res_ = (tb[2] - tb[0]) / layer.grid.grid.tile_size[0]
+            want_pt = (tb[0] + 10 * res_, tb[3] - 10 * res_)
+            pts = [a for a in getattr(covs[eff], 'asked', []) if len(a) == 2]
+            ok_pt = len(pts) >= 1 and all(abs(a[0] - want_pt[0]) <= res_ and abs(a[1] - want_pt[1]) <= res_ for a in pts)
+            return AND(ok_pt, IMPLIES(inside, len(info_calls) == 1), IMPLIES(NOT(inside), AND(len(info_calls) == 0, resp.response == '')))
         if eff is None:
             return len(tm.calls) == 1 and not calls
         c, i = covs[eff]._c, covs[eff]._i
